@@ -16,7 +16,7 @@ JOBS = {
         {"cmd": "c18-flow", "race": True, "timeout": {"quick": 600, "thorough": 2400}},
     ],
     "C14": [
-        {"cmd": "c14-engine", "race": True, "batches": {"quick": 10, "thorough": 10}, "timeout": {"quick": 600, "thorough": 2400}},
+        {"cmd": "c14-engine", "race": True, "batches": {"quick": 12, "thorough": 12}, "timeout": {"quick": 600, "thorough": 2400}},
     ],
     "C19": [
         {"cmd": "c19-codec", "race": False, "batches": {"quick": 4, "thorough": 16}, "timeout": {"quick": 300, "thorough": 1500}},
